@@ -213,7 +213,16 @@ func execC19(r *Run) {
 		}
 		return out
 	}
+	reached := map[string]map[string]bool{} // publisher -> signatures delivered to it
 	deliverTo := func(name string, b *protocol.BatchSnapshots) {
+		if g.roles[name] == "publisher" {
+			if reached[name] == nil {
+				reached[name] = map[string]bool{}
+			}
+			for _, ss := range b.Snapshots {
+				reached[name][string(ss.Signature)] = true
+			}
+		}
 		g.agents[name].SimDeliver(mkWire(b))
 		synctest.Wait()
 		g.mu.Lock()
@@ -404,30 +413,32 @@ func execC19(r *Run) {
 		r.Count("oracle.alert_checked")
 	}
 	// publisher: every distinct signed snapshot that reached a publisher was
-	// forwarded (PutBatch) exactly once per publisher
-	pubs := 0
-	for _, nm := range names {
-		if g.roles[nm] == "publisher" {
-			pubs++
+	// forwarded (PutBatch) exactly once by that publisher
+	want := map[string]int{}
+	for _, per := range reached {
+		for sig := range per {
+			want[sig]++
 		}
 	}
-	sigs := make([]string, 0, len(putAttempts))
-	for k := range putAttempts {
+	sigs := make([]string, 0, len(want))
+	for k := range want {
 		sigs = append(sigs, k)
+	}
+	for k := range putAttempts {
+		if _, ok := want[k]; !ok {
+			sigs = append(sigs, k)
+		}
 	}
 	sort.Strings(sigs)
 	for _, k := range sigs {
-		if putAttempts[k] > pubs {
-			r.Fail("publish-once", "signed snapshot %s was forwarded to the snapshot store %d times by %d publishers", k, putAttempts[k], pubs)
+		if putAttempts[k] > want[k] {
+			r.Fail("publish-once", "signed snapshot %s reached %d publisher(s) but was forwarded to the snapshot store %d times", k, want[k], putAttempts[k])
+		}
+		if putAttempts[k] < want[k] {
+			r.Fail("publish-once", "signed snapshot %s reached %d publisher(s) but was forwarded to the snapshot store only %d times", k, want[k], putAttempts[k])
 		}
 	}
-	for v := 0; v < unsent; v++ {
-		k := string(signed(issued[v]).Signature)
-		if putAttempts[k] < pubs {
-			r.Fail("publish-once", "signed snapshot of version %d reached %d publishers but was forwarded to the snapshot store only %d times", v, pubs, putAttempts[k])
-		}
-	}
-	r.CountN("oracle.published_snapshots_checked", int64(unsent))
+	r.CountN("oracle.published_snapshots_checked", int64(len(want)))
 	for _, nm := range names {
 		g.agents[nm].SimStop()
 	}
